@@ -11,9 +11,97 @@ class Raised(Exception):
 
 def _scores(task, inp, **kw):
     try:
+        if inp.get("recycle"):
+            return recycled_evaluate(task, inp, inp["recycle"], **kw)
         return task.evaluate(inp, **kw)
     except Exception as e:  # noqa: BLE001
         raise Raised(repr(e))
+
+
+# ----------------------------------------------------------------------------------------
+# "recycled objects": the annotation is scored through the SAME ndarray / list objects that an earlier call received,
+# updated in place in between (what a caller does who edits an annotation and scores it again).  A result that depends
+# on object identity instead of on the values (a memo keyed by id(), a cache filled from a mutable argument) turns into
+# a wrong score here and is then seen by whichever relation is checked; the input alone replays it.
+
+class _Recycler:
+    def __init__(self):
+        self.pool = {}
+
+    def put(self, path, x):
+        import numpy as np
+        if isinstance(x, np.ndarray):
+            old = self.pool.get(path)
+            if isinstance(old, np.ndarray) and old.shape == x.shape and old.dtype == x.dtype:
+                old[...] = x
+                return old
+            self.pool[path] = x
+            return x
+        if isinstance(x, list):
+            new = [self.put(path + (i,), v) for i, v in enumerate(x)]
+            old = self.pool.get(path)
+            if isinstance(old, list):
+                old[:] = new
+                return old
+            self.pool[path] = new
+            return new
+        return x
+
+
+def _variant(x, mode, depth=0):
+    """a same-shaped variant of one argument: time-like arrays halved (keeps order, spans, positivity), lists of
+    strings rotated by one (keeps every label valid)"""
+    import numpy as np
+    if isinstance(x, np.ndarray):
+        if mode in ("scale", "both") and x.dtype.kind == "f":
+            return x * 0.5
+        return x.copy()
+    if isinstance(x, list):
+        if x and all(isinstance(v, str) for v in x):
+            return (x[1:] + x[:1]) if mode in ("labels", "both") else list(x)
+        return [_variant(v, mode, depth + 1) for v in x]
+    return x
+
+
+class _ModProxy:
+    def __init__(self, real, hook):
+        self._real, self._hook = real, hook
+
+    def __getattr__(self, name):
+        v = getattr(self._real, name)
+        import types
+        if isinstance(v, types.ModuleType):
+            return _ModProxy(v, self._hook)
+        if isinstance(v, types.FunctionType) and not name.startswith("_") and \
+                (getattr(v, "__module__", "") or "").startswith("mir_eval."):
+            def hooked(*a, **k):
+                return self._hook(v, a, k)
+            hooked._real = v
+            return hooked
+        return v
+
+
+def recycled_evaluate(task, inp, mode, **kw):
+    rec = _Recycler()
+    state = {"warm": True}
+
+    def hook(fn, args, kwargs):
+        key = (getattr(fn, "__module__", ""), getattr(fn, "__name__", ""))
+        if state["warm"]:
+            vargs = tuple(rec.put(key + (i,), _variant(a, mode)) for i, a in enumerate(args))
+            try:
+                fn(*vargs, **kwargs)
+            except Exception:  # noqa: BLE001 - the warm-up call only has to have happened
+                pass
+        rargs = tuple(rec.put(key + (i,), a) for i, a in enumerate(args))
+        return fn(*rargs, **kwargs)
+
+    real = T.mir_eval
+    T.mir_eval = _ModProxy(real, hook)
+    try:
+        return task.evaluate(inp, **kw)
+    finally:
+        T.mir_eval = real
 
 
 def guarded(fn):
